@@ -110,8 +110,56 @@ pub fn json_null_bool() {
     }
 }
 
+
+// ---- C13, container part: BOUNDED (native execution only: heap documents with recursive drop glue are out of CBMC's budget here) ----
+#[cfg(not(kani))]
+fn gen_doc(depth: u8) -> JValue {
+    let arity = if depth > 0 { 8 } else { 6 };
+    match nd::below(arity) {
+        0 => JValue::Null,
+        1 => JValue::Bool(nd::bool()),
+        2 => JValue::Number(Number::from([0u64, 7, (1u64 << 53) + 1, u64::MAX][nd::below(4) as usize])),
+        3 => JValue::Number(Number::from([-1i64, -(1i64 << 53) - 1, i64::MIN][nd::below(3) as usize])),
+        4 => JValue::Number(Number::from_f64([1.5f64, -0.0, f64::MIN_POSITIVE / 4.0, 1e300, 18446744073709551616.0][nd::below(5) as usize]).unwrap()),
+        5 => JValue::String(["", "a\"b\u{e9}"][nd::below(2) as usize].to_string()),
+        6 => { let n = nd::below(3); let mut v = Vec::new(); for _ in 0..n { v.push(gen_doc(depth - 1)); } JValue::Array(v) }
+        _ => { let n = nd::below(3); let mut m = serde_json::Map::new(); for i in 0..n { m.insert(["k", "l l"][i as usize].to_string(), gen_doc(depth - 1)); } JValue::Object(m) }
+    }
+}
+#[cfg(not(kani))]
+fn same_doc(a: &JValue, b: &JValue) -> bool {
+    // structural equality that distinguishes -0.0 from 0.0 and u64 from f64 (serde_json's == on Number does too, except for the sign of zero)
+    match (a, b) {
+        (JValue::Number(x), JValue::Number(y)) => x.is_u64() == y.is_u64() && x.is_i64() == y.is_i64() && x.is_f64() == y.is_f64() && x.as_u64() == y.as_u64() && x.as_i64() == y.as_i64() && (!x.is_f64() || x.as_f64().map(|f| f.to_bits()) == y.as_f64().map(|f| f.to_bits())),
+        (JValue::Array(x), JValue::Array(y)) => x.len() == y.len() && x.iter().zip(y.iter()).all(|(p, q)| same_doc(p, q)),
+        (JValue::Object(x), JValue::Object(y)) => x.len() == y.len() && x.iter().zip(y.iter()).all(|((k1, p), (k2, q))| k1 == k2 && same_doc(p, q)),
+        _ => a == b,
+    }
+}
+#[cfg(not(kani))]
+fn kinds_agree(v: &JValue) -> bool {
+    let k = v.kind();
+    let ok_here = kind_is(k, v.clone().into_value().kind());
+    ok_here && match v { JValue::Array(a) => a.iter().all(kinds_agree), JValue::Object(m) => m.values().all(kinds_agree), _ => true }
+}
+/// every document of nesting depth <= 2 and width <= 2 over the boundary scalars of the statement
+#[cfg(not(kani))]
+pub fn json_documents() {
+    rec::reset();
+    let doc = gen_doc(2);
+    oblige!(kinds_agree(&doc), "C13:kind_without_consuming_equals_kind_of_the_consumed_view");
+    let back = JValue::from(doc.clone().into_value());
+    oblige!(same_doc(&back, &doc), "C13:from_value_gives_back_the_same_document");
+    match deserr::deserialize::<JValue, JValue, Rec>(doc.clone()) {
+        Ok(j) => { oblige!(same_doc(&j, &doc) && rec::calls() == 0, "C13:deserr_impl_gives_back_the_same_document"); }
+        Err(_) => { oblige!(false, "C13:deserr_impl_never_fails_on_a_document_serde_json_can_hold"); }
+    }
+}
+#[cfg(kani)]
+pub fn json_documents() {}
+
 pub fn registry() -> Vec<(&'static str, crate::Body)> {
-    vec![("json_u64", json_u64 as crate::Body), ("json_i64", json_i64), ("json_f64", json_f64), ("json_null_bool", json_null_bool)]
+    vec![("json_u64", json_u64 as crate::Body), ("json_i64", json_i64), ("json_f64", json_f64), ("json_null_bool", json_null_bool), ("json_documents", json_documents)]
 }
 
 #[cfg(kani)]
